@@ -25,14 +25,14 @@ Print Assumptions C09_model_total_partial.
 
 (* the fuel of the value loops is sufficient: any larger fuel gives the same list of values *)
 Theorem C09_value_loop_fuel_suffices : forall f1 f2 l, (length l < f1)%nat -> (length l < f2)%nat ->
-  extract_all extract_real f1 l = extract_all extract_real f2 l /\
-  extract_all extract_int f1 l = extract_all extract_int f2 l /\
-  extract_all extract_word f1 l = extract_all extract_word f2 l.
+  forall dl, extract_all extract_real dl f1 l = extract_all extract_real dl f2 l /\
+  extract_all extract_int dl f1 l = extract_all extract_int dl f2 l /\
+  extract_all extract_word dl f1 l = extract_all extract_word dl f2 l.
 Proof.
-  intros f1 f2 l H1 H2. repeat split.
-  - exact (extract_all_fuel extract_real extract_real_progress f1 f2 l H1 H2).
-  - exact (extract_all_fuel extract_int extract_int_progress f1 f2 l H1 H2).
-  - exact (extract_all_fuel extract_word extract_word_progress f1 f2 l H1 H2).
+  intros f1 f2 l H1 H2 dl. repeat split.
+  - exact (extract_all_fuel extract_real extract_real_progress dl f1 f2 l H1 H2).
+  - exact (extract_all_fuel extract_int extract_int_progress dl f1 f2 l H1 H2).
+  - exact (extract_all_fuel extract_word extract_word_progress dl f1 f2 l H1 H2).
 Qed.
 Print Assumptions C09_value_loop_fuel_suffices.
 
@@ -199,23 +199,24 @@ Proof.
 Qed.
 Print Assumptions C09_pinned_scalar_rule_refuted.
 
-(* lists of values (after the repair): accepted iff the WHOLE text is a sequence of values separated by white space
-   (tokens_of), with exactly n of them for a fixed-length list; the pinned rules dropped what they could not read
-   ("1 2 x 3" gave (1, 2)) and surplus entries ("1 2 3" for one value) *)
+(* lists of values (after the repairs): accepted iff the WHOLE text is a sequence of values, each followed by white
+   space or by the end of the text (tokens_of), with exactly n of them for a fixed-length list; the pinned rules
+   dropped what they could not read ("1 2 x 3" gave (1, 2)), surplus entries ("1 2 3" for one value), and read
+   "1.2.3" as the two values 1.2 and .3 *)
 Theorem C09_vector_values_strict : forall data vs n,
   (vector_dyn extract_real data = VAccept vs <-> tokens_of extract_real data vs) /\
   (vector_fixed extract_real n data = VAccept vs <-> tokens_of extract_real data vs /\ length vs = n).
 Proof.
   intros data vs n.
-  assert (T : forall vs0, extract_all extract_real (S (length data)) data = (vs0, []) <-> tokens_of extract_real data vs0).
+  assert (T : forall vs0, extract_all extract_real true (S (length data)) data = (vs0, []) <-> tokens_of extract_real data vs0).
   { intros vs0. apply (extract_all_tokens extract_real extract_real_progress). lia. }
   split.
   - unfold vector_dyn. split.
-    + intros H. destruct (extract_all extract_real (S (length data)) data) as [vs' r] eqn:E.
+    + intros H. destruct (extract_all extract_real true (S (length data)) data) as [vs' r] eqn:E.
       destruct r; [|discriminate]. inversion H. subst vs'. apply T. reflexivity.
     + intros H. apply T in H. rewrite H. reflexivity.
   - unfold vector_fixed. split.
-    + intros H. destruct (extract_all extract_real (S (length data)) data) as [vs' r] eqn:E.
+    + intros H. destruct (extract_all extract_real true (S (length data)) data) as [vs' r] eqn:E.
       destruct r; [|discriminate]. destruct (Nat.eqb_spec (length vs') n) as [En|En]; [|discriminate].
       inversion H. subst vs'. split; [apply T; reflexivity|exact En].
     + intros [H En]. apply T in H. rewrite H. subst n. rewrite Nat.eqb_refl. reflexivity.
@@ -224,8 +225,13 @@ Print Assumptions C09_vector_values_strict.
 
 Theorem C09_pinned_vector_rules_refuted :
   (exists data vs, vector_dyn_lenient extract_real data = VAccept vs /\ vector_dyn extract_real data = VReject) /\
-  (exists data vs, vector_fixed_lenient extract_real 1 data = VAccept vs /\ vector_fixed extract_real 1 data = VReject).
-Proof. split; [exact vector_dyn_lenient_refuted|exact vector_fixed_lenient_refuted]. Qed.
+  (exists data vs, vector_fixed_lenient extract_real 1 data = VAccept vs /\ vector_fixed extract_real 1 data = VReject) /\
+  (exists data vs, vector_dyn_lenient extract_real data = VAccept vs /\ length vs = 2%nat /\
+                   vector_dyn extract_real data = VReject).
+Proof.
+  split; [exact vector_dyn_lenient_refuted|]. split; [exact vector_fixed_lenient_refuted|].
+  exact vector_unseparated_refuted.
+Qed.
 Print Assumptions C09_pinned_vector_rules_refuted.
 
 (* ---------------------------------------------------------------- examples: the premises are satisfiable *)
@@ -272,6 +278,6 @@ Proof. repeat split; eexists; eexists; vm_compute; reflexivity. Qed.
 
 Example C09_example_tokens : tokens_of extract_int [49; 32; 50] [1; 2].
 Proof.
-  eapply TokCons; [cbn; discriminate|vm_compute; reflexivity|].
-  eapply TokCons; [cbn; discriminate|vm_compute; reflexivity|]. apply TokNil. reflexivity.
+  eapply TokCons; [cbn; discriminate|vm_compute; reflexivity|reflexivity|].
+  eapply TokCons; [cbn; discriminate|vm_compute; reflexivity|reflexivity|]. apply TokNil. reflexivity.
 Qed.
